@@ -13,7 +13,7 @@ demo() {
   if [ -f "$src/demo_test.go" ]; then
     cp "$src/demo_test.go" "$wt/zz_seed_demo_test.go"
     names=$(grep -o '^func Test[A-Za-z0-9_]*' "$src/demo_test.go" | sed 's/func //' | paste -sd'|')
-    (cd "$wt" && go test -vet=off -count=1 -run "^($names)\$" . >/tmp/seedcheck.$$.demo 2>&1); r=$?
+    (cd "$wt" && go test $SEED_DEMO_FLAGS -vet=off -count=1 -run "^($names)\$" . >/tmp/seedcheck.$$.demo 2>&1); r=$?
     rm -f "$wt/zz_seed_demo_test.go"; return $r
   elif [ -f "$src/demo/main.go" ]; then
     mkdir -p "$wt/zz_seed_demo"; cp "$src/demo/main.go" "$wt/zz_seed_demo/main.go"
